@@ -81,6 +81,13 @@ def run_acceptance(item):
     raise Violation('refusal_not_valueerror', '%s %s %s: %r' % (sel, algo, c, err))
   if not ok and rm.get_quantization_recipe():
     raise Violation('refused_update_changed_recipe', '%s %s %s' % (sel, algo, c))
+  # the selector as a plain string (recipe files, update('.*', 'ADD', ...)): same verdict
+  rms = recipe_manager.RecipeManager()
+  oks, errs = core.call(rms.add_quantization_config, '.*', sel, cfg, algo)
+  if not oks and not isinstance(errs, ValueError):
+    raise Violation('refusal_not_valueerror', '%s (string selector) %s %s: %r' % (sel, algo, c, errs))
+  if oks != ok:
+    raise Violation('verdict_depends_on_selector_form', '%s %s %s: enum %s, string %s' % (sel, algo, c, ok, oks))
   rm2 = recipe_manager.RecipeManager()
   ok2, err2 = core.call(rm2.add_quantization_config, '.*', qtyping.TFLOperationName.ALL_SUPPORTED, cfg, algo)
   if not ok2:
